@@ -15,9 +15,11 @@
 (* f observed from the real Calculate at its centre m and at m -+ h e_x,   *)
 (* m -+ h e_y.  On the leaf (half-diagonal R)                              *)
 (*   S <= S(m) + (|grad S(m)| + err) R + LS2 R^2 / 2,                      *)
-(* and the leaf must either have this bound strictly below S(declared) -   *)
-(* it then holds no global minimiser of f - or lie within delta of the     *)
-(* declared point and have the bound below S(declared) (1 + tol)^2.        *)
+(* and the leaf must either have this bound strictly below the largest     *)
+(* value of S observed anywhere (at the declared point or at a better      *)
+(* point found by the search) - it then holds no global minimiser of f -   *)
+(* or lie within delta of the declared point and have the bound below      *)
+(* S(declared) (1 + tol)^2.                                                *)
 (***************************************************************************)
 EXTENDS Q, Sequences, Integers, FiniteSets, Json, IOUtils, TLC
 
@@ -63,7 +65,8 @@ Kids(r, c, t, x0, y0, hw, k) ==
 Verdict(r) ==
   \E ls2 \in {LS2(r)} : \E ls3 \in {LS3(r)} :
   \E c \in {[ls2 |-> ls2, eg |-> QAdd(QDivR(QMul(ls3, QSq(r.h)), "6"), QDivR(r.epss, r.h)),
-             sdecl |-> QSub(QSq(r.fobs), r.epss), sallow |-> QMul(QSq(r.optv), QSq(QAdd(Q1, r.tvrel)))]} :
+             sdecl |-> QSub(QMax(QSq(r.fobs), QSq(r.fbest)), r.epss),   \* the largest f^2 observed anywhere: the global maximum of S is at least this
+             sallow |-> QMul(QSq(r.optv), QSq(QAdd(Q1, r.tvrel)))]} :
   \E w \in {Walk(r, c, r.tree, Q0, Q0, Q1)} :
     PrintT(<<"BOX2D", [fn |-> r.fn, leaves |-> w[1], near |-> w[3], ls2 |-> QFloorInt(ls2),
         failed |-> (IF w[2] = 0 THEN {} ELSE {"LeafNotExcluded"})
